@@ -470,6 +470,43 @@ def clause5_origin(ctx, P):
                    "the connection handler's is_local argument is not the result of is_localhost(&addr)")
 
 
+def clause7_auth_gates(ctx, P):
+    """(a) rights are (re)assigned only while the peer has no fetch attached: notifications are filtered when a fetch is
+    attached, not when they are sent, so changing a peer's groups under a live fetch leaves it subscribed to what it may no
+    longer see; (b) a peer is in a group iff the names are EQUAL"""
+    ha = P.fn("authenticate.c:handle_authentication")
+    sts = [i for i in ha.all_insts() if i.op == "store" and P.term(ha, i.a[1])[0] == "field" and P.term(ha, i.a[1])[2] == "struct.peer"
+           and P.term(ha, i.a[1])[3] in ("fetch_groups", "set_groups", "call_groups", "user_name")]
+    if len(sts) < 3:
+        raise AnalysisBroken("handle_authentication: stores to the peer's rights not found")
+
+    def no_fetch(atom, pol):
+        t = atom[1] if atom[0] == "truth" else (atom[2] if atom[0] == "cmp" and atom[3] == ("const", 0) else None)
+        if t is None or not Q.is_call_to(t, "list_empty"):
+            return False
+        if not Q.mentions(t[2][0], lambda x: x[0] == "field" and x[2] == "struct.peer" and x[3] == "fetch_list"):
+            return False
+        return pol if atom[0] == "truth" else not Q._poleq(atom, pol)
+    for i in sts:
+        ctx.ob("C08.2 R-GATE", ha, Q.ordinal_site(ha, i, P) + ":only-without-live-fetch", Q.must_pass(P, ha, i.block, no_fetch),
+               "peer.%s is written on a path that did not establish list_empty(&p->fetch_list): a peer that re-authenticates under a "
+               "live fetch keeps receiving events of elements its new groups may not see" % P.term(ha, i.a[1])[3])
+    gg = P.fn("groups.c:get_groups")
+    nset = 0
+    for i in gg.all_insts():
+        if i.op == "or" and any(isinstance(a, int) and a >= gg.nparams and gg.insts[a].op in ("shl", "zext", "sext") for a in i.a):
+            nset += 1
+
+            def equal_names(atom, pol):
+                return atom[0] == "cmp" and Q.is_call_to(atom[2], "strcmp") and atom[3] == ("const", 0) and Q._poleq(atom, pol) and \
+                    all(Q.is_field_load(x, "struct.cJSON", "valuestring") is not None for x in atom[2][2])
+            ctx.ob("C08.6 R-PAIR", gg, Q.ordinal_site(gg, i, P) + ":group-names-equal", Q.must_pass(P, gg, i.block, equal_names),
+                   "a group bit is set without strcmp(group name, peer's group name) == 0: a prefix or partial comparison puts peers into "
+                   "groups they were not given")
+    if nset < 1:
+        raise AnalysisBroken("get_groups: group bit accumulation not found")
+
+
 def clause6_group_bits(ctx, P):
     """every registered group has a bit of its own in a group mask: the bit is built at the width of the mask and the number of
     groups that can be registered does not exceed that width"""
@@ -507,6 +544,7 @@ def run(ctx):
     for cfg in ctx.configs():
         P, cg = cfg.P, cfg.cg
         clause6_group_bits(ctx, P)
+        clause7_auth_gates(ctx, P)
         clause1_init(ctx, P)
         clause2_who(ctx, P)
         clause3_disclosure(ctx, P)
